@@ -12,6 +12,15 @@ var stubNode = []string{"Prometheus (reload callback counter + head-series value
 
 func init() {
 	core.Register(&core.Spec{
+		ID: "C09", Engine: "node", Run: c09Run,
+		QuickRuns: 160, ThorRuns: 20000, QuickCap: 70 * time.Second, ThorCap: 12 * time.Minute,
+		Rule: "a run draws two consecutive assignments A -> B (empty / one / many / large >64 KiB store; both states; label values needing JSON escaping; optionally an old-format targets.json as starting point), checks clean restarts, then injects store faults into the real TargetsManager's persisting of B: the store write cut at byte N by RLIMIT_FSIZE for every N of small stores (complete sub-sweep) or drawn N of large ones, the same cut applied to the write Load performs at start, the same update in a separate OS process with a cut, and that process SIGKILLed by strace on entry to the K-th syscall touching the store file for every K; after each fault a fresh start must succeed and resume A or B, and a second start must agree; a case is (kind of A) x (kind of B) x old-format?",
+		Real: []string{"sidecar.TargetsManager (Load, UpdateTargets, store file on a real directory)", "kernel file system", "a separate OS process for the child variant"},
+		Stub: []string{"no update callbacks are registered (the injector's own file is not part of this property)"},
+		Assume: []string{"no power-loss model: kill, partial write and full disk are injected at the syscall boundary; un-synced page loss is not", "the idle-since instant of B is compared up to the real-time difference between the faulted process and its fault-free twin"},
+		Workers: 16, SelfCheckRuns: 6,
+	})
+	core.Register(&core.Spec{
 		ID: "C12", Engine: "node", Run: c12Run,
 		QuickRuns: 3000, ThorRuns: 150000, QuickCap: 60 * time.Second, ThorCap: 12 * time.Minute,
 		Rule: "a run performs 1-6 successful scrapes through the real proxy with a drawn payload class (generated samples, empty, one line without newline, comment/blank/HELP/TYPE lines, lines the statistics parser rejects, CRLF, one line of up to 262000 bytes, 1-6 MiB), identity or gzip, drawn read-chunk pattern on the target side (1 byte ... 1 MiB) and drawn short-write pattern on the Prometheus side (a ResponseWriter accepting 1..n bytes per call), or through a real net/http server+client over net.Pipe; assigned and unassigned hashes; a case is (payload class) x (assigned?) x gzip x (writer | net/http)",
